@@ -244,6 +244,10 @@ def _hit():
     return _HIT["h"]
 
 
+def _units_now():
+    return tuple(str(getattr(pb.PreferredUnits, f)) for f in sorted(SLOT_DIM))
+
+
 DM = lambda: pb.DragModel(0.3, pb.TableG7)  # noqa: E731
 
 # name -> (slot, kind of value, builder)
@@ -286,6 +290,8 @@ PARAMS = {
     "Calculator.fire.trajectory_step": ("distance", "step", lambda x: pb.Calculator().fire(_base_shot(), D.Foot(300), x)),
     "HitResult.danger_space.at_range": ("distance", "range", lambda x: _hit().danger_space(x, D.Inch(20))),
     "HitResult.danger_space.look_angle": ("angular", "angle", lambda x: _hit().danger_space(D.Foot(400), D.Inch(20), x)),
+    "basicConfig.max_calc_step_size": ("distance", "gstep", lambda x: (pb.basicConfig(max_calc_step_size=x), pb.get_global_max_calc_step_size(),
+                                                                       _units_now())[1:]),
     "set_global_max_calc_step_size": ("distance", "gstep", lambda x: (pb.set_global_max_calc_step_size(x), pb.get_global_max_calc_step_size())[1]),
 }
 PARAM_NAMES = sorted(PARAMS)
@@ -403,6 +409,6 @@ def parts(tier):
 MANIFEST = {
     "technique": "Hypothesis-generated preferred-unit configurations; differential of a full explicit-unit scenario across two configurations (bit-identical raw results); bare-number vs explicit-quantity equivalence for every float-or-quantity parameter",
     "text": "(A) zero angle, all rows (plain/extra/default step), danger space, clicks, velocities, global step of an explicit-unit scenario are bit-identical under any two of the generated slot assignments / presets; "
-            "(B) for each of 39 public parameters a bare number (0, -0.0, negative, small, large) builds the same object / gives the same result / raises the same exception type as the explicit quantity in the slot's unit. Exploration level.",
+            "(B) for each of 40 public parameters a bare number (0, -0.0, negative, small, large) builds the same object / gives the same result / raises the same exception type as the explicit quantity in the slot's unit. Exploration level.",
     "note": "parameter -> slot table taken from the documentation (slot named after the parameter kind); danger_space target_height ambiguity accepted either way",
 }
